@@ -98,7 +98,8 @@ def run_property(pid, tier, seed):
                 continue
             st = a['functions'].get(f['key'], dict(status='undecided', errors=[], time_ms=None))
             functions.append(dict(function=f['name'], unit=unit, repo_file=f['repo_file'], repo_line=f['repo_line'],
-                                  sha256=f['sha256'], rewrites=f['rewrites']))
+                                  repo_end_line=f.get('repo_end_line', f['repo_line']), sha256=f['sha256'], rewrites=f['rewrites'],
+                                  status=st['status']))
             ob = dict(name=f['key'], engine='verus', backend='verus/z3', status=st['status'],
                       time_s=(st['time_ms'] or 0) / 1000.0, contract=f['desc'],
                       where='%s:%d' % (f['repo_file'], f['repo_line']), errors=st['errors'])
@@ -153,6 +154,35 @@ def run_property(pid, tier, seed):
             trusted.add('kani: CBMC 6.11 model of rustc MIR, std (Vec/Box/Rc) and IEEE-754; debug profile')
     return dict(obligations=obligations, undecided=undecided, trusted=sorted(trusted), functions=functions,
                 cmds=cmds, bounded=bounded, canaries=canaries, samples=samples, wall_s=time.time() - t0)
+
+
+PANIC_PATTERNS = [r'\.unwrap\(\)', r'\.expect\(', r'unchecked_unwrap\(\)', r'unreachable_unchecked\(\)', r'\bunreachable!\(',
+                  r'\bunimplemented!\(', r'\bdebug_assert!\(', r'\bassert!\(', r'\bpanic!\(', r'get_unchecked\(',
+                  r'from_utf8_unchecked\(', r'push_unchecked\(', r'\binner!\(']
+
+
+def panic_site_coverage(functions, files):
+    """C09: enumerate panic / unchecked-unsafe sites in `files` (non-test code) mechanically and say which lie inside a
+    function whose contract was discharged in this run (there every such site is a proof obligation, rule 2)."""
+    from rsrc import SourceFile
+    repo = os.environ.get('VERIF_REPO', '/repo')
+    sites, covered, uncovered = 0, 0, []
+    for rel in files:
+        path = os.path.join(repo, rel)
+        if not os.path.exists(path):
+            continue
+        sf = SourceFile(path)
+        for ln, line in enumerate(sf.m.split('\n'), 1):
+            for pat in PANIC_PATTERNS:
+                for _ in re.finditer(pat, line):
+                    sites += 1
+                    hit = [f for f in functions if f['repo_file'] == rel and f['repo_line'] <= ln <= f['repo_end_line']
+                           and f.get('status') == 'ok']
+                    if hit:
+                        covered += 1
+                    else:
+                        uncovered.append('%s:%d %s' % (rel, ln, pat.replace('\\', '')))
+    return dict(panic_sites=sites, inside_discharged_contracts=covered, not_under_contract=uncovered)
 
 
 def main():
@@ -233,6 +263,9 @@ def main():
                          % (pid, path, o['name'], '+'.join(kinds)))
     discharged = len(ok)
     total = len(r['obligations'])
+    site_cov = None
+    if PROPS[pid].get('panic_site_files'):
+        site_cov = panic_site_coverage(r['functions'], PROPS[pid]['panic_site_files'])
     evidence = dict(
         property_id=pid, tier=args.tier, seed=seed, level='proof',
         coverage=dict(
@@ -246,6 +279,7 @@ def main():
             canaries=r['canaries'],
             known_findings=[dict(obligation=o['name'], text=k['text']) for k, o in known_hit],
             undecided=und,
+            panic_site_coverage=site_cov,
             samples=r['samples'],
             explanation='obligation = one function under contract (Verus: all its requires-at-call-sites, ensures, '
                         'invariants, assertions, arithmetic/unreachability conditions) or one loop-free Kani harness '
